@@ -147,6 +147,30 @@ def config_module(mem, data, table, elems, start, two_instances=False, utf8_name
     return b
 
 
+def repeated_import_module():
+    """the same globals imported twice (valid: each import is an entry of its own, the embedder answers both with one
+    object); a defined global initialised from the second one, setters through either index must be visible through the other"""
+    m = Module(); cases = []
+    m.import_func('env', 'mark', 'i', 'i')
+    m.imports.append(('env', 'g', 3, (I64, 1))); m.imports.append(('env', 'k', 3, (I32, 0))); m.imports.append(('env', 'g', 3, (I64, 1))); m.imports.append(('env', 'k', 3, (I32, 0)))
+    m.globals.append((I32, 0, global_get(3)))
+    def fn(desc, ps, rs, body, inputs):
+        k = len(cases)
+        m.add_func(ps, rs, (), body, export='f%d' % k)
+        cases.append(Case('f%d' % k, ps, rs or 'v', k, -1, desc))
+        return inputs
+    ins = []
+    ins.append(fn('global.get 0 (first import of env.g)', '', 'I', global_get(0), [()]))
+    ins.append(fn('global.get 2 (second import of env.g)', '', 'I', global_get(2), [()]))
+    ins.append(fn('global.get 1 + global.get 3 + defined global initialised from import 3', '', 'i', global_get(1) + global_get(3) + op(0x6a) + global_get(4) + op(0x6a), [()]))
+    ins.append(fn('global.set 2 then global.get 0', 'I', 'I', local_get(0) + global_set(2) + global_get(0), [(0x1122334455,), (7,)]))
+    ins.append(fn('call of the imported function', 'i', 'i', local_get(0) + call(0), [(5,)]))
+    b = Batch(m.encode(), cases, [('explicit', i) for i in ins], [], [('env', 'mark', 'i', 'i')])
+    b.externs = [('env', 'g', 'global', ('I', 0x0102030405060708)), ('env', 'k', 'global', ('i', 9))]
+    b.desc = 'the same globals imported twice'
+    return b
+
+
 def names_module():
     """export names that need escaping: symbols read from the header; must link and reach the right function"""
     m = Module(); cases = []
@@ -196,6 +220,7 @@ def main(tier):
         b.desc += ' (non-ASCII import names)'
         jobs.append(('config', b, {'cc': 'gcc', 'cflags': ('-O1',)}))
     jobs.append(('config', names_module(), {'cc': 'gcc', 'cflags': ('-O1',)}))
+    jobs.append(('config', repeated_import_module(), {'cc': 'gcc', 'cflags': ('-O1',)}))
     # every configuration again in the pretty-printed output format: the instantiation writers (Init*, Instantiate, NewChild, export wrappers)
     # have their own -p branches
     jobs += [(label, b, dict(kw, w2c2_args=tuple(kw.get('w2c2_args', ())) + ('-p',))) for label, b, kw in list(jobs)]
